@@ -1196,6 +1196,7 @@ fn run_faults(a: &Args) -> anyhow::Result<String> {
         data: Vec<u8>,
     }
     let mut inputs: Vec<Inp> = vec![];
+    let mut extra_claims: HashMap<usize, H> = HashMap::new();
     let splice_src: Vec<Vec<u8>> = bases.iter().map(|b| b.bytes.clone()).collect();
     for (bi, b) in bases.iter().enumerate() {
         let len = b.bytes.len();
@@ -1292,6 +1293,30 @@ fn run_faults(a: &Args) -> anyhow::Result<String> {
         d.extend_from_slice(&[0u8; 8]);
         inputs.push(Inp { base: bi, mutation: "append:zeros".into(), kind: "mut", data: d });
     }
+    // frames that unpack to more (or less) than their header declares, everything else - chunk hashes, offsets, root,
+    // footer - computed consistently over the declared prefix; at the largest legal length and below it, both
+    // compressing schemes.  A decoder that stops reading at a cap instead of comparing lengths accepts them.
+    for (scheme, sname) in [(xorbenc::LZ4, "lz4"), (xorbenc::BG4, "bg4")] {
+        for declared in [xorbenc::MAX_ULEN as usize, xorbenc::MAX_ULEN as usize - 1, 4096, 64] {
+            for extra in [1i64, 100, 4096, -1] {
+                let actual = (declared as i64 + extra) as usize;
+                let full = content("text", actual.max(declared), &mut rng);
+                let lead = content("text", 40, &mut rng);
+                let said: &[u8] = &full[..declared];
+                let cs: Vec<(&[u8], u8)> = vec![(lead.as_slice(), scheme), (said, scheme)];
+                let mut frames: Vec<Frame> = cs.iter().map(|(d, s)| Frame::encode(d, *s)).collect();
+                let payload = xorbenc::compress(scheme, &full[..actual]);
+                frames[1] = Frame { ver: 0, clen: payload.len() as u32, scheme, ulen: declared as u32, payload };
+                let hs: Vec<H> = cs.iter().map(|(d, _)| merkleref::chunk_hash(d)).collect();
+                let leaves: Vec<(H, u64)> = cs.iter().map(|(d, _)| (merkleref::chunk_hash(d), d.len() as u64)).collect();
+                let said_root = merkleref::xorb_hash(&leaves);
+                extra_claims.insert(inputs.len(), said_root);
+                let foot = Footer::of(&frames, &hs, said_root, 1);
+                let o = Obj { frames, gap: vec![], foot: Some(foot), trail: vec![], cut: None };
+                inputs.push(Inp { base: usize::MAX, mutation: format!("overlong:{sname}:{declared}{extra:+}"), kind: "mut", data: o.bytes() });
+            }
+        }
+    }
     // random byte strings, some of them made to look like a footer / a chunk
     for r in 0..nrandom {
         let len = match r % 4 {
@@ -1332,10 +1357,13 @@ fn run_faults(a: &Args) -> anyhow::Result<String> {
     // footer names
     let mut cases = vec![];
     let mut analyses = vec![];
-    for inp in &inputs {
+    for (ii, inp) in inputs.iter().enumerate() {
         let an = xorbenc::analyze(&inp.data);
         let own = if inp.base == usize::MAX { other_hash() } else { bases[inp.base].own };
         let mut hashes = vec![own, merkleref::chunk_hash(b"some other xorb")];
+        if let Some(h) = extra_claims.get(&ii) {
+            hashes.push(*h);
+        }
         if an.dec && !hashes.contains(&an.root) {
             hashes.push(an.root);
         }
